@@ -655,3 +655,166 @@ Lemma nonvacuous :
 Proof. cbv zeta. eexists; eexists; eexists. split; [reflexivity|]. split; [reflexivity|]. split; [reflexivity|].
   repeat split; apply f_equal || idtac; try (vm_compute; reflexivity).
 Qed.
+
+(* ================= the general lentil.rescale (all arguments) ================= *)
+Lemma rescale_gen_default o img s : rescale_gen o img s ShNone None false false = util_rescale o img s.
+Proof. reflexivity. Qed.
+
+Lemma rescale_gen_shape o img s sh pm pmi u r : rescale_gen o img s sh pm pmi u = Ok r ->
+  pmi = false /\ (onr r, onc r) = gen_shape img sh s.
+Proof. unfold rescale_gen. destruct pmi; [discriminate|]. destruct (gen_shape img sh s) as [N M].
+  destruct u.
+  - destruct (unitary_factor _ _ _ _) as [f|]; [destruct (nz f)|]; intros H; injection H as <-; auto.
+  - intros H; injection H as <-; auto. Qed.
+
+Theorem general_shape_and_refusal o img s sh pm u :
+  rescale_gen o img s sh pm true u = Err ValueError /\
+  (forall r, rescale_gen o img s sh pm false u = Ok r ->
+     match sh with
+     | ShNone => onr r = rescale_shape (qnr img) s /\ onc r = rescale_shape (qnc img) s
+     | ShScalar a => onr r = rescale_shape a s /\ onc r = rescale_shape a s
+     | ShPair a b => onr r = rescale_shape a s /\ onc r = rescale_shape b s
+     end) /\
+  (exists r, rescale_gen o img s sh pm false u = Ok r) /\
+  rescale_gen o img s ShNone None false false = util_rescale o img s.
+Proof. repeat split.
+  - intros r H. apply rescale_gen_shape in H as (_ & H). destruct sh; cbn in H; injection H; auto.
+  - unfold rescale_gen. destruct (gen_shape img sh s) as [N M]. destruct u; [|eauto].
+    destruct (unitary_factor _ _ _ _) as [f|]; [destruct (nz f)|]; eauto. Qed.
+
+(* non-unitary call with an explicit mask: what every output sample is *)
+Lemma rescale_gen_plain_get o img s sh pm r : rescale_gen o img s sh pm false false = Ok r ->
+  forall i j, oget r i j = sample_gen o img pm (coord (qnr img) (onr r) s i) (coord (qnc img) (onc r) s j).
+Proof. unfold rescale_gen. destruct (gen_shape img sh s) as [N M]. intros H; injection H as <-. reflexivity. Qed.
+
+Lemma thr_spec eps v : thr eps v = (if qlt v eps then Q2Qc 0 else v). Proof. reflexivity. Qed.
+Lemma qlt_spec x y : qlt x y = true <-> x < y.
+Proof. unfold qlt. rewrite Qclt_alt. destruct (x ?= y); split; intros; congruence. Qed.
+
+Theorem explicit_mask_spec o img s sh mk eps r :
+  rescale_gen o img s sh (Some (mk, eps)) false false = Ok r ->
+  qnr mk = qnr img -> qnc mk = qnc img ->
+  (forall i j y x, coord (qnr img) (onr r) s i = zq y -> (0 <= y < qnr img)%Z ->
+                   coord (qnc img) (onc r) s j = zq x -> (0 <= x < qnc img)%Z ->
+     oget r i j = Known (qget img y x * (if qlt (qget mk y x) eps then Q2Qc 0 else qget mk y x))) /\
+  (forall i j, zero_cluster mk (coord (qnr img) (onr r) s i) (coord (qnc img) (onc r) s j) = true ->
+     node (qnr img) (coord (qnr img) (onr r) s i) = None \/ node (qnc img) (coord (qnc img) (onc r) s j) = None ->
+     oget r i j = Known (Q2Qc 0)).
+Proof. intros H En Em. pose proof (rescale_gen_plain_get _ _ _ _ _ _ H) as G. split.
+  - intros i j y x Hy Hyr Hx Hxr. rewrite G, Hy, Hx. unfold sample_gen, pre_sample, post_sample.
+    rewrite En, Em, !node_zq by assumption. reflexivity.
+  - intros i j Hz Hn. rewrite G. unfold sample_gen, pre_sample, post_sample. rewrite En, Em.
+    set (y := coord (qnr img) (onr r) s i) in *. set (x := coord (qnc img) (onc r) s j) in *.
+    assert (P : (match node (qnr img) y with Some i0 => match node (qnc img) x with Some j0 => Known (thr eps (qget mk i0 j0)) | None => if zero_cluster mk y x then Known (Q2Qc 0) else Unknown end
+                 | None => if zero_cluster mk y x then Known (Q2Qc 0) else Unknown end) = Known (Q2Qc 0)).
+    { rewrite Hz. destruct Hn as [-> | Hn]; [reflexivity|]. rewrite Hn. destruct (node (qnr img) y); reflexivity. }
+    rewrite P. unfold smul.
+    destruct (match node (qnr img) y with Some i0 => match node (qnc img) x with Some j0 => Known (qget img i0 j0) | None => _ end | None => _ end) as [u| |];
+      cbn; try reflexivity. f_equal. ring. Qed.
+
+(* sums *)
+Lemma qsum_list_scale f l : qsum_list (map (fun v => v * f) l) = qsum_list l * f.
+Proof. induction l as [|a t IH]; cbn [map qsum_list fold_right]; [ring|]. fold (qsum_list (map (fun v => v * f) t)). fold (qsum_list t). rewrite IH. ring. Qed.
+Lemma qsum2_scale n m g f : qsum2 n m (fun i j => g i j * f) = qsum2 n m g * f.
+Proof. unfold qsum2. rewrite <- qsum_list_scale, map_map. f_equal. apply map_ext. intros i.
+  rewrite <- qsum_list_scale, map_map. reflexivity. Qed.
+
+Theorem unitary_preserves_total img N M pre f :
+  unitary_factor img N M pre = Some f ->
+  qsum2 N M (fun i j => val0 (pre i j) * f) = qsum2 (qnr img) (qnc img) (qget img) /\
+  all_known N M pre = true /\ qsum2 N M (fun i j => val0 (pre i j)) <> 0.
+Proof. unfold unitary_factor. destruct (all_known N M pre) eqn:A; [|discriminate].
+  set (t := qsum2 N M (fun i j => val0 (pre i j))). destruct (nz t) eqn:Ez; [|discriminate].
+  intros H; injection H as <-. assert (Ht : t <> 0) by (intros E; rewrite E in Ez; discriminate).
+  repeat split; auto. rewrite qsum2_scale. fold t. field. exact Ht. Qed.
+
+Theorem unitary_result o img s sh pm r :
+  rescale_gen o img s sh pm false true = Ok r ->
+  let N := onr r in let M := onc r in
+  let pre := fun i j => pre_sample o img (coord (qnr img) N s i) (coord (qnc img) M s j) in
+  match unitary_factor img N M pre with
+  | Some f =>
+      qsum2 N M (fun i j => val0 (pre i j) * f) = qsum2 (qnr img) (qnc img) (qget img) /\
+      (nz f = true -> forall i j, oget r i j = smap (fun v => v * f) (sample_gen o img pm (coord (qnr img) N s i) (coord (qnc img) M s j))) /\
+      (nz f = false -> forall i j, oget r i j = Known (Q2Qc 0))
+  | None => forall i j, oget r i j = Unknown
+  end.
+Proof. unfold rescale_gen. destruct (gen_shape img sh s) as [N M].
+  destruct (unitary_factor img N M _) as [f|] eqn:U.
+  - destruct (nz f) eqn:Ef; intros H; injection H as <-; cbn [onr onc oget]; rewrite U; (split; [apply (unitary_preserves_total _ _ _ _ _ U)|]);
+      split; intros; try congruence; reflexivity.
+  - intros H; injection H as <-. cbn [onr onc oget]. rewrite U. reflexivity. Qed.
+
+(* the detector.pixelate configuration: s = 1/k with k dividing both sizes, default mask, unitary *)
+Lemma all_known_intro N M f :
+  (forall i j, (0 <= i < N)%Z -> (0 <= j < M)%Z -> exists v, f i j = Known v) -> all_known N M f = true.
+Proof. intros H. unfold all_known. apply forallb_forall. intros i Hi. apply forallb_forall. intros j Hj.
+  apply zrange_in in Hi, Hj. destruct (H i j Hi Hj) as (v & ->). reflexivity. Qed.
+
+Lemma qsum2_ext N M f g : (forall i j, (0 <= i < N)%Z -> (0 <= j < M)%Z -> f i j = g i j) -> qsum2 N M f = qsum2 N M g.
+Proof. intros H. unfold qsum2. f_equal. apply map_ext_in. intros i Hi. f_equal. apply map_ext_in. intros j Hj.
+  apply zrange_in in Hi, Hj. auto. Qed.
+
+Lemma nz_true v : v <> 0 -> nz v = true.
+Proof. intros H. destruct (nz v) eqn:E; [reflexivity|]. apply nz_false in E. contradiction. Qed.
+
+Lemma pre_sample_node o img y x i j :
+  node (qnr img) y = Some i -> node (qnc img) x = Some j -> pre_sample o img y x = Known (qget img i j).
+Proof. intros Hy Hx. unfold pre_sample. now rewrite Hy, Hx. Qed.
+
+Theorem unit_fraction_unitary img k N M r : (0 < k)%Z -> qnr img = (k * N)%Z -> qnc img = (k * M)%Z ->
+  let t := qsum2 N M (fun i j => qget img (k * i) (k * j)) in
+  t <> 0 ->
+  rescale_gen Cubic img (/ zq k) ShNone None false true = Ok r ->
+  onr r = N /\ onc r = M /\
+  (forall i j, (0 <= i < N)%Z -> (0 <= j < M)%Z ->
+     oget r i j = Known (qget img (k * i) (k * j) * (qsum2 (qnr img) (qnc img) (qget img) / t))) /\
+  qsum2 N M (fun i j => qget img (k * i) (k * j) * (qsum2 (qnr img) (qnc img) (qget img) / t))
+    = qsum2 (qnr img) (qnc img) (qget img).
+Proof. intros Hk En Em t Ht. unfold rescale_gen, gen_shape. rewrite En, Em, !rescale_shape_inv by assumption.
+  rewrite <- En, <- Em.
+  set (pre := fun i j => pre_sample Cubic img (coord (qnr img) N (/ zq k) i) (coord (qnc img) M (/ zq k) j)).
+  assert (Hpre : forall i j, (0 <= i < N)%Z -> (0 <= j < M)%Z -> pre i j = Known (qget img (k * i) (k * j))).
+  { intros i j Hi Hj. unfold pre. rewrite En, Em, !coord_inv by assumption.
+    apply pre_sample_node; apply node_zq; nia. }
+  assert (Hall : all_known N M pre = true) by (apply all_known_intro; intros i j Hi Hj; rewrite Hpre by assumption; eauto).
+  assert (Hsum : qsum2 N M (fun i j => val0 (pre i j)) = t)
+    by (apply qsum2_ext; intros i j Hi Hj; rewrite Hpre by assumption; reflexivity).
+  unfold unitary_factor. rewrite Hall, Hsum, (nz_true _ Ht).
+  set (f := qsum2 (qnr img) (qnc img) (qget img) / t).
+  assert (Hs : forall i j, (0 <= i < N)%Z -> (0 <= j < M)%Z ->
+            sample_gen Cubic img None (coord (qnr img) N (/ zq k) i) (coord (qnc img) M (/ zq k) j) = Known (qget img (k * i) (k * j))).
+  { intros i j Hi Hj. cbn [sample_gen]. rewrite En, Em, !coord_inv by assumption.
+    apply sample_node; apply node_zq; nia. }
+  assert (Htot : qsum2 N M (fun i j => qget img (k * i) (k * j) * f) = qsum2 (qnr img) (qnc img) (qget img)).
+  { rewrite qsum2_scale. fold t. unfold f. field. exact Ht. }
+  destruct (nz f) eqn:Ef; intros H; injection H as <-; cbn [onr onc oget]; repeat split; auto.
+  - intros i j Hi Hj. change (sample Cubic img) with (sample_gen Cubic img None). rewrite Hs by assumption. reflexivity.
+  - intros i j Hi Hj. apply nz_false in Ef. rewrite Ef. f_equal. ring. Qed.
+
+(* non-vacuity instances for the general rescale *)
+Definition ex_img : qarr := mkQ 4 4 (fun i j => zq (1 + i + 4 * j)) false.
+Definition ex_mask : qarr := mkQ 4 4 (fun i j => if (i =? 0)%Z then Q2Qc (1 # 1000000) else if (j =? 0)%Z then Q2Qc 0 else zq 2) false.
+
+Lemma ex_general_shape :
+  (exists r, rescale_gen Cubic ex_img (zq 3 / zq 2) (ShScalar 5) None false false = Ok r /\ onr r = 8%Z /\ onc r = 8%Z) /\
+  (exists r, rescale_gen Nearest0 ex_img (zq 3 / zq 2) (ShPair 2 5) None false false = Ok r /\ onr r = 3%Z /\ onc r = 8%Z) /\
+  rescale_gen Cubic ex_img (zq 2) ShNone None true false = Err ValueError.
+Proof. repeat split; try (eexists; split; [reflexivity|]; split; vm_compute; reflexivity). Qed.
+
+Lemma ex_explicit_mask :
+  exists r, rescale_gen Cubic ex_img (zq 2) ShNone (Some (ex_mask, Q2Qc (1 # 1000))) false false = Ok r /\
+    oget r 2 2 = Known (zq 12) /\          (* node (1,1): img = 6, mask = 2 *)
+    oget r 0 2 = Known (Q2Qc 0) /\         (* node (0,1): mask 1e-6 < eps = 1e-3 -> 0 *)
+    oget r 2 0 = Known (Q2Qc 0) /\         (* node (1,0): mask 0 *)
+    oget r 3 3 = Unknown.
+Proof. eexists; split; [reflexivity|]. repeat split; vm_compute; reflexivity. Qed.
+
+Lemma ex_unit_fraction_unitary :
+  exists r, rescale_gen Cubic ex_img (/ zq 2) ShNone None false true = Ok r /\ onr r = 2%Z /\ onc r = 2%Z /\
+    oget r 0 0 = Known (zq 1 * (zq 136 / zq 24)) /\ oget r 1 1 = Known (zq 11 * (zq 136 / zq 24)).
+Proof. eexists; split; [reflexivity|]. repeat split; vm_compute; reflexivity. Qed.
+
+Lemma ex_unitary_poisoned :
+  exists r, rescale_gen Cubic ex_img (zq 3 / zq 2) ShNone None false true = Ok r /\ oget r 0 0 = Unknown.
+Proof. eexists; split; [reflexivity|]. vm_compute; reflexivity. Qed.
